@@ -15,12 +15,13 @@ TRUSTED = [
 ]
 
 
-def check(ctx, prop, kinds, design):
+def check(ctx, prop, kinds, design, extra_subs=(), extra_trusted=()):
+    # extra_subs: further sub-harnesses of the property (dicts as for vlib.standard_check), run after klock
     return vlib.standard_check(
         ctx, ["Kernel", prop], "%s/Properties.v" % prop,
-        [{"pkg": "klock", "sub": "klock", "kinds": kinds}],
-        TRUSTED, design, chk_modules=["MV.%s.Properties" % prop])
+        [{"pkg": "klock", "sub": "klock", "kinds": kinds}] + list(extra_subs),
+        TRUSTED + list(extra_trusted), design, chk_modules=["MV.%s.Properties" % prop])
 
 
-def replay(ctx, path):
-    return vlib.standard_replay(ctx, {"klock": "klock"}, path)
+def replay(ctx, path, extra_pkgs=None):
+    return vlib.standard_replay(ctx, dict({"klock": "klock"}, **(extra_pkgs or {})), path)
